@@ -182,6 +182,13 @@ class Namespace(argparse.Namespace):
         else:
             super().__setattr__(add_clash_mark(name), value)
 
+    def __delattr__(self, name: str) -> None:
+        """Deletes an attribute, possibly of a nested namespace."""
+        if "." in name:
+            self.__delitem__(name)
+        else:
+            super().__delattr__(add_clash_mark(name))
+
     def __setitem__(self, key: str, item: Any) -> None:
         """Sets an item to a possibly nested namespace."""
         leaf_key, parent_ns, parent_key = self._parse_key(key)
@@ -218,19 +225,23 @@ class Namespace(argparse.Namespace):
 
     def as_dict(self) -> Dict[str, Any]:
         """Converts the nested namespaces into nested dictionaries."""
-        def item_as_dict(item):
-            return item.as_dict() if isinstance(item, Namespace) else item
+        def has_namespace(item):
+            if isinstance(item, Namespace):
+                return True
+            if isinstance(item, (list, tuple)):
+                return any(has_namespace(v) for v in item)
+            return isinstance(item, dict) and any(has_namespace(v) for v in item.values())
 
-        dic = {}
-        for key, val in vars(self).items():
-            if isinstance(val, Namespace):
-                val = val.as_dict()
-            elif isinstance(val, dict) and any(isinstance(v, Namespace) for v in val.values()):
-                val = {k: item_as_dict(v) for k, v in val.items()}
-            elif isinstance(val, (list, tuple)) and any(isinstance(v, Namespace) for v in val):
-                val = type(val)(item_as_dict(v) for v in val)
-            dic[del_clash_mark(key)] = val
-        return dic
+        def item_as_dict(item):
+            if isinstance(item, Namespace):
+                return item.as_dict()
+            if not has_namespace(item):
+                return item  # containers without namespaces are handed out as they are
+            if isinstance(item, dict):
+                return {k: item_as_dict(v) for k, v in item.items()}
+            return type(item)(item_as_dict(v) for v in item)
+
+        return {del_clash_mark(key): item_as_dict(val) for key, val in vars(self).items()}
 
     def as_flat(self) -> argparse.Namespace:
         """Converts the nested namespaces into a single argparse flat namespace."""
